@@ -1496,7 +1496,7 @@ def _collect_block(lines: List[str], start: int) -> Tuple[List[str], int]:
     i = start + 1
     block: List[str] = []
     while i < len(lines):
-        if not lines[i].strip():
+        if not lines[i].strip() or lines[i].lstrip().startswith("#"):
             block.append(lines[i]); i += 1; continue
         if _indent_of(lines[i]) <= base:
             break
@@ -1526,7 +1526,7 @@ def _collect_if_structure(lines: List[str], start: int) -> Tuple[List[str], int]
     while i < len(lines):
         raw = lines[i]
         text = raw.strip()
-        if not text:
+        if not text or text.startswith("#"):
             snippet.append(raw)
             i += 1
             continue
@@ -1549,7 +1549,7 @@ def _collect_try_structure(lines: List[str], start: int) -> Tuple[List[str], int
     while i < len(lines):
         raw = lines[i]
         text = raw.strip()
-        if not text:
+        if not text or text.startswith("#"):
             snippet.append(raw)
             i += 1
             continue
@@ -2617,7 +2617,7 @@ def _parse_simple_lines(
             j = next_idx
             while j < len(snippet):
                 probe_raw = snippet[j]
-                probe_text = probe_raw.strip()
+                probe_text = _strip_inline_comment(probe_raw).strip()
                 if not probe_text:
                     j += 1
                     continue
@@ -2738,7 +2738,7 @@ def _parse_simple_lines(
 
             while j < len(snippet):
                 probe_raw = snippet[j]
-                probe_text = probe_raw.strip()
+                probe_text = _strip_inline_comment(probe_raw).strip()
                 if not probe_text:
                     j += 1
                     continue
